@@ -80,6 +80,14 @@ def check_assigned_syms(ctx, part, before_syms, fname, w):
         if P.symbolic_quarters(sym) * q != n.end.t - n.start.t:
             kind = "rest" if isinstance(n, S.Rest) else "note"
             tup = "-tuplet" if sym.get("actual_notes") else ""
+            m_ = next((m for m in timemaps.objects_of(part, S.Measure) if m.start.t <= n.start.t < m.end.t), None)
+            if kind == "rest" and fname == "fill_rests" and m_ is not None and any(m_.start.t < t_ <= n.start.t for t_, _ in d["q"]):
+                # (open known finding) the divisions change inside the measure, before this rest: fill_rests sizes every rest of a
+                # measure by the divisions at the start of the measure
+                ctx.violation("fill_rests-sizes-rests-by-the-divisions-at-the-start-of-their-measure",
+                              f"measure [{m_.start.t},{m_.end.t}) with a change of divisions inside: rest [{n.start.t},{n.end.t}) at divisions {q} got "
+                              f"{sym} = {float(P.symbolic_quarters(sym) * q)} divs", dict(w, note=[n.id, n.start.t, n.end.t], divisions=q, symbolic=sym))
+                return False
             ctx.violation(f"{fname}-assigned-inexact-symbolic-duration-{kind}{tup}",
                           f"{fname} gave {kind} {n.id} [{n.start.t},{n.end.t}) at divisions {q} the value {sym} = "
                           f"{float(P.symbolic_quarters(sym) * q)} divs", dict(w, note=[n.id, n.start.t, n.end.t], divisions=q, symbolic=sym))
